@@ -51,6 +51,8 @@ def enc_cases(rng, tier, tag):
         cases += G.small_scope_cases(tag + 'ss', 3)
     else:
         cases += G.small_scope_cases(tag + 'ss', 2)
+    cases += G.big_ctx_cases(rng.fork('bigctx'), tag + 'bc', tier == 'thorough')
+    cases += G.wrap_cases(rng.fork('wrapseg'), tag + 'wr', tier == 'thorough')
     return cases
 
 def proj_k(c, lines):
@@ -66,7 +68,7 @@ def run_c01(res, rng):
         return [l if l.startswith('K ') else 'N ' + l.split()[1] for l in lines if l.startswith(('K ', 'N '))] + anomalies(lines)
     correspondence(res, cases, proj, G.judge_c01, 'encode-then-decode')
     res.cov['rule'] = ('batches from one splitmix64 stream: 1-6 (quick) / 1-12 (thorough) packets over all payload kinds, lengths aimed at cap-16+-2, k*(cap-16)+-1, 1..3, 65535; '
-                       'max in {25,26,33,40,41,64,100,256,1500,65559,random}, min in {0,8,24,used-1,used,used+1,max-1,max,random}; plus all batches of <=2 (quick) / <=3 (thorough) packets over boundary lengths x {data,status} x 4 frame sizes x min in {0,max}. '
+                       'max in {25,26,33,40,41,64,100,256,1500,65559,random} plus {65535..65561, 65600, 80000, 131072, 200000} with frame-filling packets and with several large packets aggregated into frames longer than 65535 bytes; batches encoded after 65531..65535 earlier frames so that segment chains straddle the counter wrap;, min in {0,8,24,used-1,used,used+1,max-1,max,random}; plus all batches of <=2 (quick) / <=3 (thorough) packets over boundary lengths x {data,status} x 4 frame sizes x min in {0,max}. '
                        'non-trivial = distinct (ctx, type/length profile) whose batch is segmented or aggregates >= 2 packets')
     res.cov['distinct_nontrivial'] = nontrivial(cases)
     res.cov['input_distribution'] = dist_stats(cases)
@@ -202,11 +204,17 @@ def run_c09(res, rng):
     res.cov['samples'] = [sample_case(c, 10) for c in cases[:2]]
 
 # ------------------------------------------------------------------ C10 history independence
-def gen_c10(rng, cid, thorough):
+def gen_c10(rng, cid, thorough, long_history=None):
     dev, stream = rng.below(65536), rng.below(256)
     lines = ['ENEW', 'EDEV %d' % dev, 'ESTR %d' % stream]
     slot = 0
     nh = rng.range(1, 6)
+    if long_history:
+        # the encoder has already produced long_history frames (quiet calls): the final batch straddles the counter wrap
+        tiny = G.plain_packet(rng, rng.range(1, 255), 1, 1)
+        lines.append(G.pkt_line(5000, tiny))
+        lines += ['ENCQ 0 25 ' + ' '.join(['5000'] * 2000)] * (long_history // 2000) + ['ENCQ 0 25 ' + ' '.join(['5000'] * (long_history % 2000))]
+        nh = rng.range(0, 2)
     for i in range(nh):
         maxb = rng.choice([25, 40, 64, 100, 1500])
         batch = G.gen_batch(rng, maxb, rng.range(0, 4), huge_ok=False)
@@ -218,7 +226,10 @@ def gen_c10(rng, cid, thorough):
     if maxb > 2000: maxb = 1500
     batch = G.gen_batch(rng, maxb, rng.range(1, 5), huge_ok=False)
     # make segmentation likely: it is the case the property singles out
-    if rng.chance(1, 2):
+    if long_history:
+        maxb = rng.choice([64, 100, 41])
+        batch = [G.gen_packet(rng, batch[0]['ver'], 8, 1), G.gen_packet(rng, batch[0]['ver'], rng.range(3 * maxb, 8 * maxb), 1), G.gen_packet(rng, batch[0]['ver'], 8, 1)]
+    elif rng.chance(1, 2):
         batch[rng.below(len(batch))] = G.gen_packet(rng, batch[0]['ver'], rng.range(maxb - 23, 3 * maxb))
     minb = G.pick_min(rng, maxb, batch)
     idx = []
@@ -260,7 +271,9 @@ def judge_c10(case, lines):
 def run_c10(res, rng):
     n = 800 if res.tier == 'quick' else 30000
     cases = corpus_cases('C10') + [gen_c10(rng.fork('c%d' % i), 'c%d' % i, res.tier == 'thorough') for i in range(n)]
+    for i, h in enumerate([65533, 65534, 65530] if res.tier == 'quick' else [65535, 65534, 65533, 65532, 65531, 65530, 65529, 65520, 65500, 131069]):
+        cases.append(gen_c10(rng.fork('w%d' % i), 'w%d' % i, False, long_history=h))
     correspondence(res, cases, proj_f, judge_c10, 'history independence')
-    res.cov['rule'] = 'pairs (history of 1-6 earlier encode calls with random batches/contexts, batch+context); the same batch is then encoded on a fresh encoder with the same ids; judge: frames equal apart from a constant counter offset; non-trivial = the final batch needs segmentation'
+    res.cov['rule'] = 'pairs (history of 1-6 earlier encode calls with random batches/contexts, batch+context); the same batch is then encoded on a fresh encoder with the same ids; plus histories of 65500..65535 (131069) earlier frames so that the final batch straddles the counter wrap; judge: frames equal apart from a constant counter offset; non-trivial = the final batch needs segmentation'
     res.cov['distinct_nontrivial'] = len(set(tuple(c.lines) for c in cases if 'batch' in c.meta and any(16 + len(p['payload']) > c.meta['max'] - 8 for p in c.meta['batch'])))
     res.cov['samples'] = [sample_case(c, 8) for c in cases[:2]]
